@@ -1,6 +1,8 @@
 package main
 
 import (
+	"strconv"
+
 	"github.com/evolbioinfo/gotree/tree"
 )
 
@@ -18,8 +20,66 @@ func c06(c *Sexp) *Sexp {
 	if err != nil {
 		return L(KV("panic", A("build: "+err.Error())))
 	}
-	if err := t.ReinitIndexes(); err != nil {
-		return L(KV("panic", A("reinit: "+err.Error())))
+	if !c.Bool("noindex") {
+		if err := t.ReinitIndexes(); err != nil {
+			return L(KV("panic", A("reinit: "+err.Error())))
+		}
+	}
+	// pre-history: edits through the public API, without reindexing unless asked
+	//   (pre ((index) (graft name i) (rename old new) (prune T|F (names...)) (clone)))
+	hasPre := false
+	if pre := c.Get("pre"); pre != nil && pre.IsList {
+		for _, op := range pre.List {
+			if !op.IsList || len(op.List) == 0 {
+				continue
+			}
+			hasPre = true
+			switch op.List[0].Atom {
+			case "index":
+				if err := t.ReinitIndexes(); err != nil {
+					return L(KV("preerr", A("index: "+err.Error())))
+				}
+			case "graft":
+				edges := t.Edges()
+				if len(op.List) < 3 || len(edges) == 0 {
+					return L(KV("preerr", A("graft: bad op")))
+				}
+				i, _ := strconv.Atoi(op.List[2].Atom)
+				n := t.NewNode()
+				n.SetName(op.List[1].Atom)
+				if _, _, _, err := t.GraftTipOnEdge(n, edges[i%len(edges)]); err != nil {
+					return L(KV("preerr", A("graft: "+err.Error())))
+				}
+			case "rename":
+				if len(op.List) < 3 {
+					return L(KV("preerr", A("rename: bad op")))
+				}
+				for _, tip := range t.Tips() {
+					if tip.Name() == op.List[1].Atom {
+						tip.SetName(op.List[2].Atom)
+						break
+					}
+				}
+			case "prune":
+				if len(op.List) < 3 {
+					return L(KV("preerr", A("prune: bad op")))
+				}
+				ns := []string{}
+				for _, x := range op.List[2].List {
+					ns = append(ns, x.Atom)
+				}
+				if err := t.RemoveTips(op.List[1].Atom == "T", ns...); err != nil {
+					return L(KV("preerr", A("prune: "+err.Error())))
+				}
+			case "clone":
+				t = t.Clone()
+			}
+		}
+	}
+	var pretree, preaudit *Sexp
+	if hasPre {
+		// the tree as it is when RemoveTips is called: the judge takes it as the input
+		pretree, preaudit = ObserveTree(t)
 	}
 	names := c.StrList("names")
 	queries := []string{}
@@ -39,7 +99,11 @@ func c06(c *Sexp) *Sexp {
 	operr := t.RemoveTips(c.Bool("revert"), names...)
 	if operr != nil {
 		// the tree is left half-modified: nothing else is observed
-		return L(KV("err", A(errStr(operr))))
+		res := L(KV("err", A(errStr(operr))))
+		if hasPre {
+			res.List = append(res.List, KV("pretree", pretree), KV("preaudit", preaudit))
+		}
+		return res
 	}
 	d, audit := ObserveTree(t)
 	live := map[*tree.Node]bool{}
@@ -73,6 +137,10 @@ func c06(c *Sexp) *Sexp {
 	if n, e := t.NbTips(); e == nil {
 		nb = n
 	}
-	return L(KV("err", A("")), KV("tree", d), KV("audit", audit), KV("lookups", lookups),
+	res := L(KV("err", A("")), KV("tree", d), KV("audit", audit), KV("lookups", lookups),
 		KV("nbtips", I(nb)), KV("ntips", I(len(tips))), KV("nalltips", I(len(t.AllTipNames()))))
+	if hasPre {
+		res.List = append(res.List, KV("pretree", pretree), KV("preaudit", preaudit))
+	}
+	return res
 }
